@@ -6,6 +6,11 @@ use crate::core::Erased;
 pub mod c01;
 pub mod c02;
 pub mod c03;
+pub mod c05;
+pub mod c09e;
+pub mod c10e;
+pub mod c18;
+pub mod c19e;
 pub mod diffcommon;
 
 pub fn by_id(id: &str) -> Option<Arc<dyn DynMonitor>> {
@@ -13,6 +18,11 @@ pub fn by_id(id: &str) -> Option<Arc<dyn DynMonitor>> {
         "C01" => Arc::new(Erased(c01::C01)),
         "C02" => Arc::new(Erased(c02::C02)),
         "C03" => Arc::new(Erased(c03::C03)),
+        "C05" => Arc::new(Erased(c05::C05)),
+        "C18" => Arc::new(Erased(c18::C18)),
+        "C09" => Arc::new(Erased(c09e::C09e)),
+        "C19" => Arc::new(Erased(c19e::C19e)),
+        "C10" => Arc::new(Erased(c10e::C10e)),
         _ => return None,
     })
 }
